@@ -65,6 +65,9 @@ type pathClient struct {
 	dmap string
 	path int
 	pick int
+	// batch: on the pipeline path, Put and GetPut are followed by two more queued commands on neighbour keys
+	// (key~batch1, key~batch2) before Exec - a pipeline is a batch. Off for checks that count or scan keys.
+	batch bool
 }
 
 func (p *pathClient) effectivePath(key string) int {
@@ -177,6 +180,12 @@ func (p *pathClient) put(ctx context.Context, key string, val []byte, o putOpt) 
 		if err != nil {
 			r.Err = errClass(err)
 			return
+		}
+		// a pipeline is a batch: two more commands, on other keys and with other values, are queued behind the
+		// one under test before anything is sent
+		if p.batch {
+			_, _ = pl.GetPut(ctx, key+"~batch1", []byte("a-batch-neighbour-value-1"))
+			_, _ = pl.Put(ctx, key+"~batch2", []byte("a-batch-neighbour-value-2"))
 		}
 		if err := pl.Exec(ctx); err != nil {
 			r.Err = errClass(err)
@@ -370,6 +379,11 @@ func (p *pathClient) getput(ctx context.Context, key string, val []byte) (r vRes
 		if err != nil {
 			r.Err = errClass(err)
 			return
+		}
+		// a batch, see put
+		if p.batch {
+			_, _ = pl.GetPut(ctx, key+"~batch1", []byte("a-batch-neighbour-value-1"))
+			_, _ = pl.Put(ctx, key+"~batch2", []byte("a-batch-neighbour-value-2"))
 		}
 		if err := pl.Exec(ctx); err != nil {
 			r.Err = errClass(err)
